@@ -300,8 +300,8 @@ def source_reset(ctx, db):
         ctx.ob(rid, f, f['key'], len(n) == 1, 'move-assignment is the merge', desc='move-assignment is not implemented by the merge')
 
 
-def consumers_clear(ctx, db):
-    rid = ctx.rule('C06.consumers-clear', 'COUNT', 'suspend_now clears the storage exactly once on every path; await_suspend clears exactly once on the coroutine-mode edge after it queued '
+def consumers_clear(ctx, db, rid='C06.consumers-clear'):
+    rid = ctx.rule(rid, 'COUNT', 'suspend_now clears the storage exactly once on every path; await_suspend clears exactly once on the coroutine-mode edge after it queued '
                    'the handles; the destructor runs suspend_now on the non-empty edge; pop decrements the count by exactly one handle on the non-empty edge and writes nothing on '
                    'the empty edge', floor=4)
     for f, trs in traces_of(db, 'cocls::suspend_point::suspend_now', depth=0, per_instance=False):
@@ -339,6 +339,25 @@ def consumers_clear(ctx, db):
         if na == 0 and not bad:
             bad = ('no coroutine-mode edge', trs[0] if trs else [])
         ctx.ob(rid, f, f['key'], bad is None, 'await_suspend: pop once, queue the rest, clear once' + ('' if not bad else ' -- ' + bad[0]), desc=bad[0] if bad else None)
+    # normal-mode edge of await_suspend: the closure run under the temporary queue must consume the handles (delegate to the nested
+    # await_suspend / suspend_now, or clear after running them): handles that are run but stay in the list are run again by the destructor
+    lams = lambdas_of(db, 'cocls::suspend_point::await_suspend')
+    EMPTY = ('cocls::suspend_point::await_suspend', 'cocls::suspend_point::suspend_now', 'cocls::suspend_point::clear', 'cocls::suspend_point::clear_internal', 'cocls::suspend_point::flush')
+    seenl = set()
+    for lf in lams:
+        if lf['key'] in seenl:
+            continue
+        seenl.add(lf['key'])
+        trs = [t for t in htracer(db).traces(lf) if live(t)]
+        ctx.paths(rid, len(trs))
+        bad = None
+        for tr in trs:
+            em = [c for c in tr if c.k == 'call' and norm(c.get('callee')) in EMPTY and c.get('depth', 0) == 0]
+            run_ = [c for c in tr if c.k == 'call' and norm(c.get('callee')) in ('std::coroutine_handle::resume', 'std::coroutine_handle::operator()')]
+            if len(em) != 1:
+                bad = bad or ('the closure run on the normal-mode edge empties the suspend point %d times%s: its handles are %s' % (len(em), ' while it resumes handles itself' if run_ else '', 'run again by the destructor' if not em else 'consumed twice'), tr)
+        ctx.ob(rid, lf, lf['key'], bad is None and bool(trs), 'await_suspend, normal-mode closure: the handles are consumed exactly once' + ('' if not bad else ' -- ' + bad[0]), desc=bad[0] if bad else None,
+               trace=fmt_trace(bad[1]) if bad else None)
     for f, trs in traces_of(db, 'cocls::suspend_point::~suspend_point', depth=0, per_instance=False):
         trs = [t for t in trs if live(t)]
         ctx.paths(rid, len(trs))
@@ -497,12 +516,12 @@ def _in_cycle(f, bid):
     return any(bid in reach_blocks(f, s_) for s_ in f['_blocks'][bid]['succ'] if s_ >= 0)
 
 
-def self_inclusion(ctx, db):
+def self_inclusion(ctx, db, rid_='C06.self-inclusion'):
     """await_suspend (coroutine mode) queues every handle of the suspend point and then the awaiting coroutine itself unless it was among them.
     The flag that remembers "my own handle was in the list" is computed in a loop: every write to it inside the loop must be monotone
     (|=, or a constant true, or an expression over its old value), otherwise only the last handle scanned counts and an earlier own handle
     is queued twice - the coroutine would be resumed twice"""
-    rid = ctx.rule('C06.self-inclusion', 'DATAFLOW', 'suspend_point::await_suspend: the push of the awaiting coroutine (param h) is guarded by a flag; every write to that flag inside the scan loop '
+    rid = ctx.rule(rid_, 'DATAFLOW', 'suspend_point::await_suspend: the push of the awaiting coroutine (param h) is guarded by a flag; every write to that flag inside the scan loop '
                    'is monotone (|=, constant true, or mentions the flag itself): an own handle found early is not forgotten', floor=1)
     for f, trs in traces_of(db, 'cocls::suspend_point::await_suspend', per_instance=False):
         if not any('coroutine_handle' in p['type'] for p in f['params']):
